@@ -123,6 +123,7 @@ class WBSlave(Agent):
         self.nsel = len(bus.sel)
         self.silenced = 0
         self.returned = False
+        self.err_adr = None       # set of addresses that always answer err
 
     def read_word(self, adr):
         return self.mem.get(adr, self.init(adr) & self.mask)
@@ -140,7 +141,7 @@ class WBSlave(Agent):
 
     def _respond(self, v, w):
         b = self.bus
-        self.cur_err = self.n in self.errs
+        self.cur_err = self.n in self.errs or (self.err_adr is not None and v[b.adr] in self.err_adr)
         if self.cur_err:
             w(b.err, 1)
         else:
